@@ -15,11 +15,15 @@ type verifRecWriter struct {
 	buf      []byte
 	failAt   int
 	failFrom int // every call from this one on fails (0 = never)
+	failFull bool // a failing call reports the full byte count together with the error (legal for an io.Writer)
 }
 
 func (w *verifRecWriter) Write(p []byte) (int, error) {
 	w.calls++
 	if w.calls == w.failAt || (w.failFrom > 0 && w.calls >= w.failFrom) {
+		if w.failFull {
+			return len(p), verifErrInjected
+		}
 		return 0, verifErrInjected
 	}
 	w.buf = append(w.buf, p...)
